@@ -38,6 +38,14 @@ Section Loop.
   Definition oracle := nat -> It -> Q -> Q -> bool -> answer.
   Definition clock := nat -> Q.               (* value of the k-th read of time.time() *)
 
+  (* one trial step as seen by Solver._compute_step: what was handed in, what came back, and whether
+     the step was finally adopted (after the penalty policy's veto) *)
+  Record trial := mk_trial {
+    t_rho : Q; t_dt : Q; t_disp : bool;       (* arguments *)
+    t_lamb : Q; t_acc : bool;                 (* StepControlResult.lamb / .accepted *)
+    t_final : bool                            (* the iterate was replaced *)
+  }.
+
   Record st := mk_st {
     cur : It;
     lamb : Q;
@@ -49,7 +57,7 @@ Section Loop.
     tstart : Q;                               (* Timer.start *)
     dstart : Q;                               (* Display timer start (reset by every displayed row) *)
     announced : list (It * It * bool);        (* ComputedStep callbacks, oldest first *)
-    trials : list (Q * Q * bool);             (* (rho, dt, display) handed to each trial, oldest first *)
+    trials : list trial;                      (* oldest first *)
     path : list It;                           (* oldest first *)
     times : list Q;
     pdist : Q;
@@ -110,7 +118,8 @@ Section Loop.
     let dt := 1 / lamb s in
     let '(nx, l, acc, k) := resolve c clk s p1 dt (orc (itn s) (cur s) (rho s) dt disp) in
     let p2 := (p1 + k)%nat in
-    let tr := trials s ++ [(rho s, dt, disp)] in
+    let mk := fun fin => trials s ++ [mk_trial (rho s) dt disp l acc fin] in
+    let tr := mk false in
     if qle (c_lamb_max c) l then
       inr (LambdaError (mk_st (cur s) l (rho s) (pst s) (itn s) (nacc s) p2 (tstart s) (dstart s)
                               (announced s) tr (path s) (times s) (pdist s) (nchanges s)))
@@ -126,7 +135,7 @@ Section Loop.
       | Some (PRes ps' nrho true) =>
           let changed := negb (qeqb nrho (rho s)) in
           inl (mk_st nx l (if changed then nrho else rho s) ps' (S (itn s)) (S (nacc s)) p3 (tstart s) ds
-                     ann tr
+                     ann (mk true)
                      (if c_collect_path c then path s ++ [nx] else path s)
                      (if c_collect_path c then times s ++ [last (times s) 0 + dt] else times s)
                      (pdist s + step_norm (cur s) nx)
